@@ -23,7 +23,8 @@ RULE = ("Part A. kind 0: real threads driven by a controller that releases one t
         "window check per record, phase 2 stores racing each other. Part B. kind 3: every history over the 8 "
         "actions {valid change, no change, touch only, syntax/schema error, deletion, rate change, rate removal, "
         "revert} of length 4 (quick) / 6 (thorough) in YAML, plus random histories up to length 8 that add "
-        "{unreadable (invalid UTF-8), same-mtime edit, valid change carrying an undeserialisable extra appender} "
+        "{unreadable (invalid UTF-8), same-mtime edit, valid change carrying an undeserialisable extra appender, rate change / "
+        "rate removal in the SAME edit as such an appender, a changed version carrying an OLDER mtime (rollback)} "
         "in YAML/JSON/TOML; mtimes set with utimensat. kind 4: the "
         "real init_file reloader thread over hand-picked and random histories. kind 5: the GLOBAL logger "
         "(init_config in a child process), every ordered pair of 7 configs (equal and different root levels, "
@@ -208,7 +209,9 @@ BROKEN = {
 }
 
 ACTIONS = ["valid-change", "no-change", "touch-only", "syntax-error", "deletion", "rate-change", "rate-removal",
-           "revert", "unreadable", "same-mtime-edit", "valid-change-with-undeserialisable-extra-appender"]
+           "revert", "unreadable", "same-mtime-edit", "valid-change-with-undeserialisable-extra-appender",
+           "rate-change-with-undeserialisable-extra-appender", "rate-removal-with-undeserialisable-extra-appender",
+           "valid-change-carrying-an-OLDER-mtime (rollback / timestamp-preserving copy)"]
 
 
 def build_history(fmt, actions, kind=3):
@@ -274,6 +277,22 @@ def build_history(fmt, actions, kind=3):
             next_tag += 1
             m += 1
             cur = [2, m, tid_of(text_of(fmt, tag, rate, 1), True, tag, rate)]
+        elif a in (11, 12):
+            # ONE edit that both changes / removes the refresh rate and adds an appender that cannot be built
+            rate = (RATES[(RATES.index(rate) + 1) % len(RATES)] if rate is not None else RATES[1]) if a == 11 else None
+            tag = next_tag
+            next_tag += 1
+            m += 1
+            cur = [2, m, tid_of(text_of(fmt, tag, rate, 1), True, tag, rate)]
+        elif a == 13:
+            # a different version whose mtime is OLDER than the one the reloader last saw
+            tag = next_tag
+            next_tag += 1
+            old_m = (cur[1] - 1) if (cur[0] != 0 and cur[1] >= 1) else None
+            if old_m is None:
+                m += 1
+                old_m = m
+            cur = [2, old_m, tid_of(text_of(fmt, tag, rate), True, tag, rate)]
         steps.append(list(cur))
     return [kind, fmt, texts, [1, t0], steps, list(actions)]
 
@@ -324,8 +343,11 @@ def cases(rng, tier):
     depth = 4 if tier == "quick" else 6
     for acts in itertools.product(range(8), repeat=depth):
         out.append(build_history(0, acts))
+    for acts in itertools.product([0, 11, 12, 13, 3, 4], repeat=3):
+        if any(a >= 11 for a in acts):
+            out.append(build_history(len(out) % 3, list(acts)))
     for _ in range(600 if tier == "quick" else 20000):
-        acts = [rng.choice([0, 0, 1, 2, 3, 4, 5, 6, 7, 8, 8, 9, 9, 10]) for _ in range(rng.range(1, 8))]
+        acts = [rng.choice([0, 0, 1, 2, 3, 4, 5, 6, 7, 8, 8, 9, 9, 10, 11, 12, 13, 13]) for _ in range(rng.range(1, 8))]
         out.append(build_history(rng.below(3), acts))
     for acts in LIVE:
         out.append(build_history(0, acts, kind=4))
